@@ -14,6 +14,7 @@ import Hg.Model.Np
 import Hg.Model.Access
 import Hg.Model.NpHyp
 import Hg.Model.Frame
+import Hg.Model.Denote
 
 namespace Hg.Proto
 open Hg Hg.Wire
@@ -263,6 +264,13 @@ def step (pool : Pool) (cmd : Json) : Pool × Json :=
         | some axes => (pool, .bool (axesValid axes && qtysOk (mkTree axes) rows))
         | none => (pool, .bool false)
       | _, _, _ => (pool, err "bad framehyp")
+    | "$denote", [h, z, .arr rows] =>
+      -- the closed-form specification (Hg.Model.Denote) of a stream on an empty tree
+      match strOf? h, (strOf? z).bind pool.get?, rows.mapM (fun row => match row with
+          | .arr [d, w] => (datumOf? d).bind (fun d => (valOf? w).map (fun w => (d, w)))
+          | _ => none) with
+      | some h, some a, some s => (pool.set h (denote a s), .str "$ok")
+      | _, _, _ => (pool, err "bad denote")
     | "$view", [h, what, lo, hi] =>
       let optRat (j : Json) : Option (Option Rat) := match j with | .null => some none | .num q => some (some q) | _ => none
       match (strOf? h).bind pool.get?, strOf? what, optRat lo, optRat hi with
